@@ -404,10 +404,17 @@ fn u8_constructors() {
     kani::assert(table_len(&c) == 0, "U8.from_box.no_adoption_records");
     let d: Rc<u8> = Rc::default();
     kani::assert(*d == 0 && d.inner().strong() == 1, "U8.default.default_value");
-    core::mem::forget((a, b, c, d));
+    let e = Rc::pin(v);
+    kani::assert(*e == v, "U8.pin.value_stored");
+    let wd: Weak<u8> = Weak::default();
+    let up = wd.upgrade();
+    kani::assert(up.is_none() && wd.strong_count() == 0 && wd.weak_count() == 0, "U8.weak_default.is_dangling");
+    core::mem::forget(up);
+    core::mem::forget((a, b, c, d, e, wd));
 }
 
 #[kani::proof]
+#[kani::unwind(4)]
 fn u8_comparisons() {
     let (x, y): (u8, u8) = (kani::any(), kani::any());
     let a = Rc::new(x);
@@ -416,6 +423,24 @@ fn u8_comparisons() {
     kani::assert((a < b) == (x < y) && (a <= b) == (x <= y) && (a > b) == (x > y) && (a >= b) == (x >= y), "U8.ord.forwards_to_values");
     kani::assert(a.cmp(&b) == x.cmp(&y) && a.partial_cmp(&b) == x.partial_cmp(&y), "U8.cmp.forwards_to_values");
     kani::assert(*a == x && *core::borrow::Borrow::<u8>::borrow(&a) == x && *a.as_ref() == x, "U8.deref.yields_the_value");
+    // Hash forwards to the value: same bytes fed to the same hasher
+    struct Sum(u64);
+    impl Hasher for Sum {
+        fn finish(&self) -> u64 {
+            self.0
+        }
+        fn write(&mut self, bytes: &[u8]) {
+            let mut i = 0;
+            while i < bytes.len() {
+                self.0 = self.0.wrapping_mul(31).wrapping_add(bytes[i] as u64);
+                i += 1;
+            }
+        }
+    }
+    let (mut h1, mut h2) = (Sum(7), Sum(7));
+    a.hash(&mut h1);
+    x.hash(&mut h2);
+    kani::assert(h1.finish() == h2.finish(), "U8.hash.forwards_to_value");
     core::mem::forget((a, b));
 }
 
